@@ -69,11 +69,18 @@ def gen_leaf(rng):
         else:
             hi = np.asarray(hi_full.max()).astype(dt)
         return specs.BoundedArray(shape, dt, lo, hi, name)
+    # one time in four the number of values reaches the top of the dtype (the largest valid value is the dtype's maximum)
+    top = {"int8": 128, "int16": 32768, "uint8": 256}
     if kind == "discrete":
-        return specs.DiscreteArray(int(rng.integers(1, 9)), INT_DT[int(rng.integers(len(INT_DT)))], name)
+        dt = INT_DT[int(rng.integers(len(INT_DT)))]
+        nvs = top[dt] if dt in top and rng.random() < 0.25 else int(rng.integers(1, 9))
+        return specs.DiscreteArray(nvs, dt, name)
     shape = rshape(rng)
-    nv = jnp.asarray(rng.integers(1, 6, size=shape), jnp.int32)
-    return specs.MultiDiscreteArray(nv, INT_DT[int(rng.integers(len(INT_DT)))], name)
+    dt = INT_DT[int(rng.integers(len(INT_DT)))]
+    nv = np.asarray(rng.integers(1, 6, size=shape), np.int32)
+    if dt in top and nv.size and rng.random() < 0.25:
+        nv.reshape(-1)[int(rng.integers(nv.size))] = top[dt]
+    return specs.MultiDiscreteArray(jnp.asarray(nv, jnp.int32), dt, name)
 
 
 def bounds_of(spec):
@@ -221,6 +228,14 @@ def run(ctx: Ctx, extended: bool = False) -> None:
         kind = js["kind"]
         ctx.count(f"kind_{kind}")
         case0 = {"spec": repr(spec)[:300]}
+        # the attributes a spec reports are the ones it was built with: num_values must be positive and one above the largest
+        # value validate accepts (the declared count, whatever the dtype of the elements)
+        if kind in ("discrete", "multiDiscrete"):
+            nvr = np.asarray(spec.num_values).astype(np.int64)
+            topv = np.asarray(spec.maximum).astype(np.int64) + 1
+            if (nvr <= 0).any() or not np.array_equal(np.broadcast_to(nvr, np.shape(topv)), topv):
+                ctx.fail("specs", "attr_num_values", f"num_values reports {nvr.tolist()} but the largest valid value is {(topv - 1).tolist()}", case0)
+            ctx.count("num_values_at_dtype_top" if int(np.max(nvr, initial=0)) in (128, 256, 32768) else "num_values_small")
         if drv.call("spec.wf", spec=js) is not True:
             ctx.disagree("specs", "model says a constructible spec is not well-formed", case0)
         # generate / validate
@@ -386,6 +401,18 @@ def run(ctx: Ctx, extended: bool = False) -> None:
             continue
         if not same_eq:
             ctx.fail("specs", "nested_eq_iff_children", "nested specs with equal children are not equal", {"spec": repr(outer)[:300]})
+        # the same children given in another keyword order (and the same through replace and a pickle round trip)
+        reordered = specs.Spec(NT3, "Outer", z=outer._specs["z"], y=specs.Spec(NT2, "Inner", q=kids[1], p=kids[0]), x=kids[2])
+        ctx.evaluations += 1
+        try:
+            ro = [bool(outer == reordered), bool(reordered == outer), bool(pickle.loads(pickle.dumps(reordered)) == outer),
+                  bool(outer.replace(y=specs.Spec(NT2, "Inner", q=kids[1], p=kids[0])) == outer)]
+        except Exception as e:  # noqa: BLE001
+            ctx.fail("specs", "eq_raises", f"nested == raises {type(e).__name__}: {e}", {"spec": repr(outer)[:300], "label": "reordered"})
+            ro = [True]
+        if not all(ro):
+            ctx.fail("specs", "nested_eq_iff_children", f"nested specs with equal children given in another keyword order are not equal {ro}",
+                     {"spec": repr(outer)[:300], "label": "reordered"}, {"label": "reordered"})
         try:
             d = bool(outer == diff)
         except Exception as e:  # noqa: BLE001
